@@ -67,7 +67,10 @@ BOXES = {
         [[0.0, 1.0], [0.0, 2.0], [-0.5, 0.5]],
         [[-3.0, 7.5], [0.125, 4.0], [0.0, 1.0]]],
 }
-FUNCS = ["smooth", "step", "const", "grow", "vec2", "ramp"]
+FUNCS = ["smooth", "step", "const", "grow", "vec2", "ramp",
+         # exactly constant (zero / non-zero) on most of the box incl. most corners: the value range stays exactly 0
+         # over the first tells (`scale or 1`), then one differing value arrives
+         "hinge", "hingec", "bump", "bumpc", "vecflat"]
 LOSSES = ["default", "uniform", "triangle", "curvature"]   # the last two see the opposing vertices (nth_neighbors = 1)
 
 
@@ -92,6 +95,15 @@ def fvalue(name, p, bounds):
         return 1.0 / (0.002 + r2)
     if name == "vec2":
         return (math.sin(3.0 * u[0]) + u[1], u[0] * u[-1] - 0.25)
+    if name in ("hinge", "hingec"):     # 0 (resp. 0.75) except near the corner (1, 1[, *])
+        return (0.75 if name == "hingec" else 0.0) + 3.0 * max(0.0, u[0] + u[1] - 1.2) ** 2
+    if name in ("bump", "bumpc"):       # localised bump, exactly constant outside a ball of radius 0.3
+        c = [0.4, 0.55, 0.5][: len(u)]
+        r2 = sum((x - y) ** 2 for x, y in zip(u, c))
+        return (-2.5 if name == "bumpc" else 0.0) + 40.0 * max(0.0, 0.09 - r2)
+    if name == "vecflat":               # vector output, both components constant except near one corner
+        h = max(0.0, u[0] + u[-1] - 1.5)
+        return (1.0 + 2.0 * h, -0.5 - h * h)
     if name == "ramp":          # first corner 0, range set by the corners
         return u[0] + 2.0 * u[1] + (0.5 * u[2] if len(u) > 2 else 0.0)
     raise ValueError(name)
@@ -703,6 +715,14 @@ def gen_case(rng, maxlen):
     elif r < 0.17:
         cfg["m"] = 0
     nops = rng.randint(max(4, maxlen // 2), maxlen)
+    if rng.random() < 0.2:      # lock-step (sequential runner): ask(1)/tell, the corners arrive one by one
+        ops = []
+        for _ in range(nops // 2 + 2 ** dim):
+            if rng.random() < 0.1:
+                ops += [["ask", 2], ["tell", 1], ["tell", 0]]
+            else:
+                ops += [["ask", 1], ["tell", 0]]
+        return cfg, ops
     ops = []
     nout = 0   # rough count of outstanding points (for sensible indices only)
     for i in range(nops):
@@ -764,6 +784,16 @@ CORPUS: list[dict] = [
     {"cfg": {"bounds": [[-1.0, 1.0], [-1.0, 1.0], [-1.0, 1.0]], "loss": "triangle", "func": "ramp", "k": -3, "m": 1},
      "ops": [["ask", 8], ["tellmany", [0, 0, 0, 0]], ["tellmany", [0, 0, 0, 0]], ["ask", 3], ["tell", 2], ["tell", 0],
              ["tell", 0], ["ask", 4]], "expect": None},
+    # the value range is exactly 0 over the first tells (three of four corners are 0), then grows: lock-step ask/tell
+    # (seeded mutant: the output multiplier lags one tell behind, `1 / (0 or 1)` is an absolute constant)
+    {"cfg": {"bounds": [[0.0, 1.0], [0.0, 1.0]], "loss": "default", "func": "hinge", "k": 0, "m": 5},
+     "ops": [["ask", 1], ["tell", 0]] * 9, "expect": None},
+    {"cfg": {"bounds": [[0.0, 1.0], [0.0, 2.0]], "loss": "default", "func": "hingec", "k": 3, "m": -11},
+     "ops": [["ask", 1], ["tell", 0]] * 8 + [["ask", 3], ["tell", 1], ["tell", 0], ["tell", 0], ["ask", 2]], "expect": None},
+    {"cfg": {"bounds": [[-1.0, 1.0], [-1.0, 1.0], [-1.0, 1.0]], "loss": "default", "func": "bump", "k": -2, "m": 7},
+     "ops": [["ask", 1], ["tell", 0]] * 14, "expect": None},
+    {"cfg": {"bounds": [[-1.0, 1.0], [-1.0, 1.0]], "loss": "triangle", "func": "vecflat", "k": 0, "m": -6},
+     "ops": [["ask", 1], ["tell", 0]] * 10, "expect": None},
 ]
 
 
